@@ -39,6 +39,16 @@ pub use multilinear_brakedown::MultilinearBrakedown;
 pub use multilinear_ligero::MultilinearLigero;
 pub use univariate_ligero::UnivariateLigero;
 
+/// Verification hook: forwards to the crate-private `utils::calculate_t`.
+#[cfg(ark_poly_commit_verif)]
+pub fn verif_calculate_t<F: PrimeField>(
+    sec_param: usize,
+    distance: (usize, usize),
+    codeword_len: usize,
+) -> Result<usize, Error> {
+    calculate_t::<F>(sec_param, distance, codeword_len)
+}
+
 const FIELD_SIZE_ERROR: &str = "This field is not suitable for the proposed parameters";
 
 /// For linear code PC schemes, the universal paramters, committer key
